@@ -10,4 +10,5 @@ let all : (string * (Model.event list -> bool)) list = [
   ("C04", Model.chk_C04);
   ("C09", Model.chk_C09);
   ("C10", Model.chk_C10);
+  ("C05", Model.chk_C05);
 ]
